@@ -70,6 +70,7 @@ def shards(tier, seed):
         out.append(("triples", cfg))
         out.append(("dimspecs", cfg))
         out.append(("warm", cfg, "containers"))
+        out.append(("objhist", cfg))
         if cfg != "autoreduce":
             out.append(("qclosure", cfg))
         if tier != "quick":
@@ -463,6 +464,55 @@ def run_qclosure(acc, cfg, tier):
     acc.sample({"clause": "closure", "cfg": cfg, "example": "Q(2, liter) * Q(4, meter) under auto_reduce_dimensions has dimension [length]**4"})
 
 
+def run_object_histories(acc, cfg):
+    """the predicates of ONE quantity object after a history of in-place operations on it (its unit container is
+    replaced, its memoised dimensionality has to follow): every chain of <= 2 operations, predicates read first"""
+    import numpy as np
+
+    M = model()
+    ureg = get_reg(cfg)
+    Q = ureg.Quantity
+    ops = [
+        ("*= s", lambda q: q.__imul__(Q(2.0, "second"))), ("/= s", lambda q: q.__itruediv__(Q(2.0, "second"))), ("**= 2", lambda q: q.__ipow__(2)),
+        ("ito_root_units", lambda q: (q.ito_root_units(), q)[1]), ("ito_base_units", lambda q: (q.ito_base_units(), q)[1]), ("ito_reduced_units", lambda q: (q.ito_reduced_units(), q)[1]),
+        ("to_root->ito back", lambda q: (q.ito(q.to_root_units().units), q)[1]),
+    ]
+    probes = ["meter", "second", "meter/second", "meter*second", "meter**2", "liter", "hertz", "kilometer/hour**2", ""]
+    specs = ["[length]", "[time]", "[length]/[time]", "[length]*[time]", "[length]**2", "[length]**3"]
+    for ustr in ("meter", "kilometer / hour", "liter", "inch * minute"):
+        for mk_ in ("ndarray", "scalar"):
+            for chain in itertools.chain(itertools.product(ops, repeat=1), itertools.product(ops, repeat=2)):
+                acc.ev()
+                acc.nt(("objhist", cfg, ustr, mk_, tuple(n for n, _ in chain)))
+                q = Q(np.array([3.0, 6.0]) if mk_ == "ndarray" else 3.0, ustr)
+                q.dimensionality, q.check("[length]"), q.is_compatible_with("meter")  # noqa: B018  (a program looks at the object first)
+                case = {"cfg": cfg, "units": ustr, "magnitude": mk_, "operations": [n for n, _ in chain]}
+                ok = True
+                for n, op in chain:
+                    o = outcome_of(lambda: op(q))
+                    if o[0] != "ok" or not hasattr(o[1], "_units"):
+                        ok = False
+                        break
+                    q = o[1]
+                if not ok:
+                    continue
+                want_dim = M.dim_of_units({k: Fraction(v).limit_denominator(1000) for k, v in dict(q._units).items()})
+                for p in probes:
+                    pd = M.dim_of_units(dict(defs.parse_expr(p).units)) if p else {}
+                    o = outcome_of(lambda: q.is_compatible_with(ureg.Unit(p) if p else ureg.Unit("")))
+                    if o != ("ok", dimkey(pd) == dimkey(want_dim)):
+                        acc.violation(["object-history", "Quantity.is_compatible_with", "predicate-disagrees-with-the-units-the-object-carries", cfg], dict(case, probe=p, units_now=str(q.units)), dimkey(pd) == dimkey(want_dim), o)
+                        break
+                for sp in specs:
+                    o = outcome_of(lambda: q.check(sp))
+                    truth = dict(ureg.get_dimensionality(sp)) == dict(ureg.get_dimensionality(q._units))
+                    if o != ("ok", truth):
+                        acc.violation(["object-history", "Quantity.check", "predicate-disagrees-with-the-units-the-object-carries", cfg], dict(case, spec=sp, units_now=str(q.units)), truth, o)
+                        break
+    acc.outcome("object-histories")
+    acc.sample({"clause": "object-history", "cfg": cfg, "example": ["check('[length]')", "q /= Q(2, 's')", "q.ito_root_units()", "check('[length]') must now be False"]})
+
+
 def run_triples(acc, cfg, tier):
     """equivalence laws and closure under * / ** on a 40-container sub-alphabet, decided by the
     implementation's own predicate (so they hold even where R1 and pint could share a mistake)"""
@@ -648,6 +698,8 @@ def run_shard(acc, shard, tier, seed):
         run_warm(acc, shard[1], tier, shard[2])
     elif kind == "qclosure":
         run_qclosure(acc, shard[1], tier)
+    elif kind == "objhist":
+        run_object_histories(acc, shard[1])
     else:
         raise core.HarnessError(f"unknown shard {shard}")
 
@@ -684,6 +736,8 @@ def replay(rec):
         if tuple(site) not in {tuple(v["site"]) for v in acc.violations} and "block" in case:
             # the verdict may depend on the conversions performed before it: redo the whole block in order
             run_containers(acc, cfg, case["block"][0], case["block"][1], rec.get("tier", "quick"))
+    elif site[0] == "object-history":
+        run_object_histories(acc, cfg)
     elif site[0] == "closure" and site[1].startswith("Quantity"):
         run_qclosure(acc, cfg, rec.get("tier", "quick"))
     elif site[0] in ("equivalence", "closure"):
